@@ -36,6 +36,7 @@ func NewExec(ld *Loaded, solverKind string, timeoutMs int) (*Exec, error) {
 func (e *Exec) resetPath() {
 	e.pc = e.pc[:0]
 	e.pcSet = map[*Term]bool{}
+	e.eqSubst = map[*Term]*Term{}
 	e.pos = 0
 	e.gs = nil
 	e.cur = nil
